@@ -1637,9 +1637,22 @@ def _str_endswith(ctx, it, obj, o, args, kw):
     return VBool(z3.SuffixOf(p.t, o.t))
 
 
+def _str_expandtabs(ctx, it, obj, o, args, kw):
+    """str.expandtabs(): partial model.  Without a tab the text is returned as it is; with one, the result holds no tab
+    (so it differs from the text) and is at least as long.  Where the blanks go is not modelled."""
+    if args or kw:
+        raise Unsupported("expandtabs with a tab size")
+    tab = z3.StringVal("\t")
+    r = z3.String(fresh_name("expanded"))
+    ctx.assume(z3.Implies(z3.Not(z3.Contains(o.t, tab)), r == o.t))
+    ctx.assume(z3.Implies(z3.Contains(o.t, tab), z3.And(z3.Not(z3.Contains(r, tab)), z3.Length(r) >= z3.Length(o.t))))
+    return VStr(r)
+
+
 CONTAINER_METHODS.update({
     ("VStr", "startswith"): _str_startswith,
     ("VStr", "endswith"): _str_endswith,
+    ("VStr", "expandtabs"): _str_expandtabs,
 })
 
 
